@@ -13,7 +13,8 @@ import (
 )
 
 func (vn *vnode) stress(s *StressSpec) *StressResult {
-	res := &StressResult{}
+	res := &StressResult{PhaseBase: atomic.LoadInt64(&vn.phase)}
+	pause := func() { time.Sleep(40 * time.Microsecond) } // outside the lock: lets clients slip in between consensus calls
 	var evMtx sync.Mutex
 	t0 := time.Now()
 	now := func() int64 { return int64(time.Since(t0)) }
@@ -75,14 +76,18 @@ func (vn *vnode) stress(s *StressSpec) *StressResult {
 			break
 		}
 		atomic.AddInt64(&vn.phase, 1)
+		res.Phases = append(res.Phases, "begin")
 		res.Consensus = append(res.Consensus, pb(br))
+		pause()
 		for _, tx := range b.Txs {
 			dr, err := vn.cli.DeliverTxSync(abci.RequestDeliverTx{Tx: tx})
 			if err != nil {
 				break
 			}
 			atomic.AddInt64(&vn.phase, 1)
+			res.Phases = append(res.Phases, "deliver")
 			res.Consensus = append(res.Consensus, pb(dr))
+			pause()
 		}
 		var ereq abci.RequestEndBlock
 		must(ereq.Unmarshal(b.End))
@@ -91,7 +96,9 @@ func (vn *vnode) stress(s *StressSpec) *StressResult {
 			break
 		}
 		atomic.AddInt64(&vn.phase, 1)
+		res.Phases = append(res.Phases, "end")
 		res.Consensus = append(res.Consensus, pb(er))
+		pause()
 		ev := StressEvent{Client: -1, Kind: "commit", Height: breq.Header.Height}
 		ev.Call = now()
 		cr, err := vn.cli.CommitSync()
@@ -104,6 +111,7 @@ func (vn *vnode) stress(s *StressSpec) *StressResult {
 		vn.store.mtx.Unlock()
 		atomic.StoreInt64(&committed, breq.Header.Height)
 		atomic.AddInt64(&vn.phase, 1)
+		res.Phases = append(res.Phases, "commit")
 		res.Consensus = append(res.Consensus, pb(cr))
 		evMtx.Lock()
 		res.Events = append(res.Events, ev)
